@@ -432,6 +432,11 @@ theorem C05_eq_other_class_raises_typeerror (C : CaseOps) (i j : Nat) (k k' : Ki
     (h : k ≠ k') : eqTop C (.node i k as) (.node j k' bs) = .error .typeError := by
   simp [eqTop, h]
 
+/-- ordering (`<`, `<=`, `>`, `>=`) of CIM objects and NocaseDicts is always rejected with TypeError -/
+theorem C05_ordering_always_rejected (i : Nat) (k : Kind) (as : List Obj) (es : Items) (b : Obj) :
+    orderTop (.node i k as) b = .error .typeError ∧ orderTop (.dict i es) b = .error .typeError := by
+  simp [orderTop]
+
 /-! ## mutating a copy -/
 
 /-- **deepcopy / pickle**: whatever is changed in place in the copy (at any identity of the copy, by any function),
@@ -511,5 +516,72 @@ theorem C05_frozenset_sum_hash_is_set_determined : FsetExt sumHash := sumHash_fs
 theorem C05_eq_implies_hash_eq_concrete (C : CaseOps) (a b : Obj) (ga : good C a = true) (gb : good C b = true)
     (h : eqObj C a b = true) : hashObj C sumHash a = hashObj C sumHash b :=
   C05_eq_implies_hash_eq C sumHash sumHash_fsetExt a b ga gb h
+
+/-! ## equal objects stay equal under the same in-place change (what a set/dict holding them relies on) -/
+
+/-- list values: `append` of `==` values, `pop()` -/
+theorem C05_eq_congr_list_ops (C : CaseOps) (i j : Nat) (xs ys : List Obj) (v w : Obj)
+    (h : eqObj C (.list i xs) (.list j ys) = true) (hv : eqObj C v w = true) :
+    eqObj C (applyOp C (.listAppend v) (.list i xs)) (applyOp C (.listAppend w) (.list j ys)) = true ∧
+    eqObj C (applyOp C .listPop (.list i xs)) (applyOp C .listPop (.list j ys)) = true := by
+  simp only [eqObj, applyOp] at h ⊢
+  exact ⟨eqList_append C v w hv xs ys h, eqList_dropLast C xs ys h⟩
+
+/-- NocaseDict.update with the same items -/
+theorem C05_eq_congr_dict_update (C : CaseOps) (i j : Nat) (items es fs : Items)
+    (ge : good C (.dict i es) = true) (gf : good C (.dict j fs) = true) (gi : ∀ e ∈ items, good C e.2 = true)
+    (h : eqObj C (.dict i es) (.dict j fs) = true) :
+    eqObj C (applyOp C (.dictUpdate items) (.dict i es)) (applyOp C (.dictUpdate items) (.dict j fs)) = true :=
+  (eqDict_dUpdate C i j items es fs ge gf gi h).1
+
+/-- a public attribute setter called with values the attribute's comparison cannot tell apart -/
+theorem C05_eq_congr_set_attribute (C : CaseOps) (i j : Nat) (k : Kind) (as bs : List Obj) (n : Nat) (v w : Obj)
+    (h : eqObj C (.node i k as) (.node j k bs) = true)
+    (hv : cmp1 C ((eqSpec k).getD n .skip) v w = true) :
+    eqObj C (applyOp C (.setAttr n v) (.node i k as)) (applyOp C (.setAttr n w) (.node j k bs)) = true := by
+  simp only [eqObj, applyOp, beq_self_eq_true, Bool.true_and] at h ⊢
+  exact eqAttrs_set C (eqSpec k) as bs n v w h hv
+
+/-- `path[k] = v` (CIMInstanceName.__setitem__ / update) on two equal good paths, keys up to case, values up to `==` -/
+theorem C05_eq_congr_path_setitem (C : CaseOps) (i j : Nat) (as bs : List Obj) (k k' : Key) (v w : Obj)
+    (ga : good C (.node i .instanceName as) = true) (gb : good C (.node j .instanceName bs) = true)
+    (gv : good C v = true) (gw : good C w = true)
+    (h : eqObj C (.node i .instanceName as) (.node j .instanceName bs) = true)
+    (hk : ckey C k = ckey C k') (hv : eqObj C v w = true) :
+    eqObj C (applyOp C (.pathSet k v) (.node i .instanceName as))
+      (applyOp C (.pathSet k' w) (.node j .instanceName bs)) = true := by
+  have hspec : (eqSpec .instanceName).getD kbIndex .skip = .dict := by decide
+  have hlen : kbIndex < (eqSpec .instanceName).length := by decide
+  have hall := (C05_eq_iff_all_attributes C i j .instanceName as bs).mp h
+  have hkb := hall.2.2 kbIndex hlen
+  rw [hspec] at hkb
+  simp only [cmp1] at hkb
+  simp only [good] at ga gb
+  have gka := goodAttrs_getD C _ as ga kbIndex (by omega)
+  have gkb := goodAttrs_getD C _ bs gb kbIndex (by omega)
+  simp only [applyOp]
+  cases hA : as.getD kbIndex .none with
+  | dict ja es =>
+    cases hB : bs.getD kbIndex .none with
+    | dict jb fs =>
+      rw [hA, hB] at hkb; rw [hA] at gka; rw [hB] at gkb
+      simp only [eqObj, beq_self_eq_true, Bool.true_and]
+      simp only [eqObj, beq_self_eq_true, Bool.true_and] at h
+      apply eqAttrs_set C _ as bs kbIndex _ _ h
+      rw [hspec]
+      exact C05_dict_eq_congr_setitem C ja jb es fs k k' v w gka gkb gv gw hkb hk hv
+    | none => rw [hA, hB] at hkb; simp [eqObj] at hkb
+    | atom x => rw [hA, hB] at hkb; simp [eqObj] at hkb
+    | list _ _ => rw [hA, hB] at hkb; simp [eqObj] at hkb
+    | node _ _ _ => rw [hA, hB] at hkb; simp [eqObj] at hkb
+  | none => cases hB : bs.getD kbIndex .none <;> rw [hA, hB] at hkb <;> simp [eqObj] at hkb <;> exact h
+  | atom x => cases hB : bs.getD kbIndex .none <;> rw [hA, hB] at hkb <;> simp [eqObj] at hkb <;> exact h
+  | list _ _ => cases hB : bs.getD kbIndex .none <;> rw [hA, hB] at hkb <;> simp [eqObj] at hkb <;> exact h
+  | node _ _ _ => cases hB : bs.getD kbIndex .none <;> rw [hA, hB] at hkb <;> simp [eqObj] at hkb <;> exact h
+
+-- non-vacuity: the keybindings slot is where the model says, and a path item assignment lands there
+example : applyOp CaseOps.py (.pathSet (some ['K']) (.atom (.num 1 1 1)))
+    (.node 0 .instanceName [.atom (.str ['C']), .dict 1 [(some ['k'], .none)], .none, .none])
+    = .node 0 .instanceName [.atom (.str ['C']), .dict 1 [(some ['K'], .atom (.num 1 1 1))], .none, .none] := by rfl
 
 end C05
